@@ -133,13 +133,14 @@ class Emitter(object):
             elif c < 0.92:
                 ws += '\r\n'
             elif self.comments and c < 0.97:
-                if not ws and self.prev not in self.SAFE_GLUE:
-                    ws += ' '        # "/" + "/* */" would read as a line comment
+                if not ws and (self.prev == '/' or (self.prev not in self.SAFE_GLUE and r.random() < 0.5)):
+                    ws += ' '        # "/" + "/* */" would read as a line comment; otherwise a comment may
+                                     # follow a word, a number or a literal without any blank
                 ws += self.comment()
                 if not can_glue or r.random() < 0.5:
                     ws += ' '
             elif self.comments:
-                if not ws and self.prev not in self.SAFE_GLUE:
+                if not ws and (self.prev == '/' or (self.prev not in self.SAFE_GLUE and r.random() < 0.5)):
                     ws += ' '
                 ws += r.choice(('// line comment\n', '//\n', '// end if; select\n', '// /* \n'))
             else:
